@@ -14,6 +14,8 @@
     types/src/data_availability_header.rs  RowProof <-> RawRowProof   rowProofToRaw / rowProofFromRaw
     types/src/share/proof.rs  ShareProof <-> RawShareProof       shareProofToRaw / shareProofFromRaw
     types/src/byzantine.rs  BadEncodingFraudProof <-> RawBadEncoding   befpToRaw / befpFromRawFull
+    types/src/fraud_proof.rs  Proof <-> RawFraudProof (the JSON form of fraud proofs: type tag + base64 of the
+                              protobuf payload)                        fraudToRaw / fraudFromRaw, fraudToJson / fraudFromJson
     node/src/block_ranges.rs  BlockRanges serde (transparent Vec / validating Deserialize)   Ranges.fromVec (group A)
     proto/src/serializers/bytes.rs  hexstring, base64string      hexUpperEncode / hexDecode, Namespace.b64Encode / b64Decode
 
@@ -250,5 +252,54 @@ def hexUpperDecode : List Char → Option Bytes
     match hexUpperVal a, hexUpperVal b, hexUpperDecode rest with
     | some x, some y, some r => some (UInt8.ofNat (x * 16 + y) :: r)
     | _, _, _ => none
+
+/-! ## fraud proofs in JSON (types/src/fraud_proof.rs)
+
+`Proof` is `#[serde(try_from = "RawFraudProof")]` with a hand-written `Serialize` that goes through
+`From<&Proof> for RawFraudProof`: `{ proof_type: "badencoding", data: <protobuf bytes of the proof> }`, `data`
+serialised with `tendermint_proto::serializers::bytes::base64string`.  The protobuf encoder/decoder of the
+payload (prost, `Protobuf::encode_vec` / `decode_vec` up to the raw structure) is a PARAMETER. -/
+
+/-- `BadEncodingFraudProof::TYPE` -/
+def BEFP_TYPE : String := "badencoding"
+
+/-- prost for `share.eds.byzantine.pb.BadEncoding`: `encode_vec` after `Into<Raw>`, `decode_vec` before `TryFrom<Raw>` -/
+structure PbCodec where
+  enc : RawBefp → Bytes
+  dec : Bytes → Option RawBefp
+
+/-- `RawFraudProof { proof_type, data }` -/
+structure RawFraudProof where
+  proofType : String
+  data : Bytes
+  deriving Repr
+
+/-- `From<&Proof> for RawFraudProof` (the only variant is `Proof::BadEncoding`) -/
+def fraudToRaw (pb : PbCodec) (p : BefpFull) : RawFraudProof := ⟨BEFP_TYPE, pb.enc (befpToRaw p)⟩
+
+/-- `TryFrom<RawFraudProof> for Proof`: `none` = `UnsupportedFraudProofType` or a payload error -/
+def fraudFromRaw (pb : PbCodec) (r : RawFraudProof) : Option BefpFull :=
+  if r.proofType = BEFP_TYPE then
+    match pb.dec r.data with
+    | some raw => befpFromRawFull raw
+    | none => none
+  else none
+
+/-- the two JSON fields: the type string and the base64 text of `data` -/
+structure JsonFraudProof where
+  proofType : String
+  data : List Char
+  deriving Repr
+
+/-- `impl Serialize for Proof` -/
+def fraudToJson (pb : PbCodec) (p : BefpFull) : JsonFraudProof :=
+  let r := fraudToRaw pb p
+  ⟨r.proofType, Namespace.b64Encode r.data⟩
+
+/-- derived `Deserialize for Proof` (`try_from = "RawFraudProof"`): base64-decode `data`, then `TryFrom` -/
+def fraudFromJson (pb : PbCodec) (j : JsonFraudProof) : Option BefpFull :=
+  match Namespace.b64Decode j.data with
+  | none => none
+  | some d => fraudFromRaw pb ⟨j.proofType, d⟩
 
 end Lumina.Model.RoundTrip
